@@ -1,0 +1,21 @@
+//go:build verif
+
+package eval
+
+import (
+	"io"
+
+	"grol.io/grol/object"
+)
+
+// Verification harness accessors (build tag verif only).
+
+func (s *State) VerifDepth() int { return s.depth }
+
+func (s *State) VerifAtRoot() bool { return s.env == s.rootEnv }
+
+func (s *State) VerifOutIs(w io.Writer) bool { return s.Out == w }
+
+func (s *State) VerifRootEnv() *object.Environment { return s.rootEnv }
+
+func (s *State) VerifCacheLen() int { return len(s.cache) }
